@@ -129,7 +129,7 @@ def restore_reader_vc(S, prefix='restore-reader'):
                   ('trashcli.parse_trashinfo.parse_original_location',
                    'parse_original_location'),
                   ('trashcli.fs', 'RealListFilesInDir.list_files_in_dir')):
-            S.resolve(*q)
+            S.note_function(*q)
         cli = None
         if ctx.choose(2, 'trash-dir-from-cli') == 1:
             cli = arg_str('trash_dir_from_cli')
@@ -289,7 +289,7 @@ def list_reader_vc(S, prefix='list-reader'):
                   ('trashcli.fs', 'file_size'),
                   ('trashcli.lib.trash_dir_reader',
                    'TrashDirReader.list_trashinfo')):
-            S.resolve(*q)
+            S.note_function(*q)
         try:
             g = V.I.call_function(fv, [], {'self': lt, 'args': args})
             for x in V.I.iterate(g):
@@ -362,7 +362,7 @@ def list_action_vc(S, prefix='list-action'):
                                        'attribute_to_print': 'deletion_date',
                                        'show_files': False, 'all_users': False})
         fv = S.resolve('trashcli.list.list_trash_action', 'ListTrashAction.run_action')
-        S.resolve('trashcli.list.list_trash_action', 'ListTrashAction.print_event')
+        S.note_function('trashcli.list.list_trash_action', 'ListTrashAction.print_event')
         try:
             V.I.call_function(fv, [], {'self': action, 'args': args})
             ctx.cover(prefix + '/cover-end')
